@@ -243,6 +243,23 @@ def _vmsa_plan():
 PLAN_VMSA = _vmsa_plan()
 
 
+def _pmsa_plan():
+    # ... and under PMSA: region boundaries are not page-aligned (32-byte regions, sub-regions), so an unaligned access can begin in a region that
+    # permits it and end in one that does not - every byte is checked on its own. C14's region builder, judged here for the byte footprint
+    from vf.props import c14
+    rows = [r for r in c14.ROWS if r in set(LS_ROWS)]
+    return e1prop.Plan('C13', rows, cfgs=('v7', 'v6', 'v7'), classify=classify_ls, tweak_case=c14.tweak,
+                       nontrivial=lambda res: res.status == 'abort' or e1prop.default_nontrivial(res), case_kw=c14.PLAN.case_kw)
+
+
+def __getattr__(name):
+    # built on first use (vf.props.c14 imports modules that import this one)
+    if name == 'PLAN_PMSA':
+        globals()['PLAN_PMSA'] = _pmsa_plan()
+        return globals()['PLAN_PMSA']
+    raise AttributeError(name)
+
+
 def run(ctx):
     ctx.rule = ('Direct calls of mem_a_get/set, mem_u_get/set, mem_u_unpriv_get/set for the complete matrix size {1,2,4,8} x address offset 0..7 x base '
                 '{mid-device, just below a device end, just below 2^32 (wrap to 0), 0, across the boundary of two abutting devices, inside the overlap of two devices with an access to the other one between store and load} x CPSR.E x SCTLR.A x SCTLR.U (where the architecture version has '
@@ -260,6 +277,7 @@ def run(ctx):
     tasks += [(e1prop.shard, ('vf.props.c13:PLAN_DUAL', ctx.shard_seed(300 + i), ctx.n(150, 3000))) for i in range(8)]
     tasks += e1prop.history_tasks(ctx, 'vf.props.c13:PLAN')
     tasks += [(e1prop.shard, ('vf.props.c13:PLAN_VMSA', ctx.shard_seed(500 + i), ctx.n(200, 4000))) for i in range(8)]
+    tasks += [(e1prop.shard, ('vf.props.c13:PLAN_PMSA', ctx.shard_seed(600 + i), ctx.n(300, 6000))) for i in range(8)]
     ctx.pmap(_dispatch, tasks)
     for b, v in list(ctx.acc.viol.items()):
         if isinstance(v['case'], dict) and 'poke' in v['case']:
